@@ -14,7 +14,8 @@ of rtptime/rtptime.go:
 * `setOrigin`, `setTimeOffset`, `adjustOrigin` with rtptime's conversions as
                    integer functions,
 * `wb`           — `writeBuffered`: for every sample the builder returns, the
-                   "late before origin" drop, the 2^31 wrap ⇒ `conn.close()`,
+                   "late before origin" drop (up to `lateThreshold` ticks before the
+                   origin), the 2^31 wrap ⇒ `conn.close()`,
                    keyframe gating / `initWriter`, and the block timestamp
                    `(ts - origin) / (clockrate / 1000)`; `conn.close()` (flush of
                    every track, re-entrantly) is `closeAll`,
@@ -125,10 +126,13 @@ structure Fixes where
   the file is closed WITHOUT force-flushing the sample builders (`closeFile`), and `initWriter`
   gives the track an origin (`setOrigin(ts, now, rate)`) when it has none instead of `adjustOrigin` -/
   dimFix : Bool := false
+  /-- the late/wrap threshold of `writeBuffered` is 2^30 instead of 2^16: a sample up to 2^30 ticks before
+  the origin is late (dropped); only beyond that has the timestamp gone around 2^31 (`closeFile`) -/
+  lateWide : Bool := false
   deriving Repr, DecidableEq
 
 /-- the code under test (flip a field when the corresponding `fix:` commit is in /repo) -/
-def codeFixes : Fixes := { fetchSlice := true, closeTwoPass := true, dimFix := true }
+def codeFixes : Fixes := { fetchSlice := true, closeTwoPass := true, dimFix := true, lateWide := true }
 
 /-- what `fetch` unmarshals of a cache entry's bytes -/
 def fetchView (fx : Fixes) : Bytes → Bytes := if fx.fetchSlice then id else fetched
@@ -291,13 +295,17 @@ inductive Late where
   | ok | drop | wrap
   deriving Repr, DecidableEq
 
-/-- the test at the head of the loop body -/
-def lateCheck (origin : Option Nat) (ts : Nat) : Late :=
+/-- `value(t.origin)-ts < lim` tells a late sample from a timestamp that has gone around 2^31:
+`0x10000` in the pinned code, `0x40000000` after the repair (`Fixes.lateWide`) -/
+def lateThreshold (fx : Fixes) : Nat := if fx.lateWide then 0x40000000 else 0x10000
+
+/-- the test at the head of the loop body; `lim` is `lateThreshold fx` -/
+def lateCheck (lim : Nat) (origin : Option Nat) (ts : Nat) : Late :=
   match origin with
   | none => .ok
   | some o =>
     if i32 (sub32 ts o) < 0 then
-      if sub32 o ts < 0x10000 then .drop else .wrap
+      if sub32 o ts < lim then .drop else .wrap
     else .ok
 
 /-- `(ts - origin) / (clockrate / 1000)` in `uint32` -/
@@ -399,7 +407,7 @@ def wb (fx : Fixes) : Nat → WB
       if trk ≠ ti then (c, env, []) else
       let t := c.track ti
       let pre := [Out.sample trk ts]
-      match lateCheck t.origin ts with
+      match lateCheck (lateThreshold fx) t.origin ts with
       | .drop =>
         let (c, env, o) := wb fx fuel c ti force rest
         (c, env, pre ++ o)
